@@ -24,6 +24,8 @@ MAX_LOOP = 600
 # ----------------------------------------------------------------------------
 # control-flow signals and runtime objects
 # ----------------------------------------------------------------------------
+from .framescan import record as _frame_record
+
 class PyRaise(Exception):
     def __init__(self, exc):
         self.exc = exc
@@ -358,6 +360,8 @@ class Exec:
         return self._run_body(info, args, kwargs, bound)
 
     def _run_body(self, info, args, kwargs, bound):
+        if not getattr(info, 'is_nested', False):
+            _frame_record(info)
         node = info.node
         fr = Frame(info.module, info)
         a = node.args
@@ -367,6 +371,9 @@ class Exec:
             vals = [bound] + vals
         if len(vals) > len(params) and not a.vararg:
             raise PyRaise(make_exc('TypeError', f'too many arguments for {info.qualname}'))
+        env = getattr(info, 'closure_env', None)
+        if env:
+            fr.locals.update(env)
         for p, v in zip(params, vals):
             fr.locals[p] = v
         ndef = len(a.defaults)
@@ -612,7 +619,13 @@ class Exec:
         return False
 
     def st_FunctionDef(self, s, fr):
-        fr.locals[s.name] = Opaque(f'nested function {s.name}')
+        # a nested function: a closure over the enclosing frame (read access to its variables), inlined when called
+        from .frontend import FuncInfo
+        outer = fr.func.qualname if fr.func is not None else '<module>'
+        info = FuncInfo(fr.module, f'{outer}.<locals>.{s.name}', s, None, '')
+        info.closure_env = fr.locals
+        info.is_nested = True
+        fr.locals[s.name] = FuncVal(info)
 
     def st_With(self, s, fr):
         if 'with' in self.hooks:
@@ -733,6 +746,12 @@ class Exec:
         if kind == 'class':
             return ClassVal(r[1])
         if kind == 'const':
+            from . import framescan
+            if (r[2], n) in framescan.mutated_cached(self.repo):
+                from .abssets import HavocState
+                v = HavocState(f'{r[2]}.{n}')
+                self.ghost[key] = v
+                return v
             ck = (r[2], n)
             if ck in _LITERAL_CACHE:
                 return _LITERAL_CACHE[ck]
@@ -1301,7 +1320,17 @@ class Exec:
                 # helper of the same module without a contract of its own: verified inlined, and reported as such
                 self.dropped.add(f'inlined without own contract: {name}')
                 return self.call_function(f.info, args, kwargs, f.bound)
-            raise Unsupported(f'call to {name}: no contract and not declared inline')
+            # a repository function without a contract of its own (e.g. a helper introduced by a refactoring): verified
+            # inlined into its caller - the caller's contract then speaks about the helper's real body - and reported
+            depth = getattr(self, '_auto_inline_depth', 0)
+            if depth >= 8:
+                raise Unsupported(f'call to {name}: no contract and auto-inlining depth exceeded')
+            self.dropped.add(f'inlined without own contract: {name}')
+            self._auto_inline_depth = depth + 1
+            try:
+                return self.call_function(f.info, args, kwargs, f.bound)
+            finally:
+                self._auto_inline_depth = depth
         if isinstance(f, Builtin):
             return f.fn(self, *args, **kwargs)
         if isinstance(f, BoundBuiltin):
